@@ -422,6 +422,11 @@ C04["harnesses"].update({
     "c04_block_plus_upgrade_altered_block": _T("a genuine upgrade does not switch off the block check: block below the replica's length with one altered byte + valid upgrade is refused, replica unchanged", "position and value of the altered byte, 2 block bytes, sibling hash, new leaf hash", "replica 2 blocks -> 3", timeout=2400, tier="thorough", memloop=True, mem_gb=20),
 })
 C05["groups"] = [dict(variant="model", patterns=["c05_", "c02_replay_truncate_merges"])]
+C05["harnesses"].update({
+    "c05_node_store_layout_i5": _T("tree store layout: flush() writes node 5 at byte 200 as LE64(length) || hash (after a pending truncation at 40*(2*len-1)); index_from_info / node_from_bytes read it back", "length full u64, 32 hash bytes, truncation flag and length < 2^40, byte position", "one node per flush", timeout=2400, tier="thorough", memloop=True),
+    "c05_node_store_layout_i0": _T("same for node 0 at byte 0", "length full u64, 32 hash bytes, truncation flag and length < 2^40, byte position", "one node per flush", timeout=900, tier="thorough"),
+})
+# (the node-store harness runs out of solver memory in this sandbox: thorough tier only, not shared with C06)
 C05["harnesses"]["c02_replay_truncate_merges_roots"] = C02["harnesses"]["c02_replay_truncate_merges_roots"]
 C09["harnesses"].update({
     "c09_seek_untrusted_flushed_root": _T("seek against a sub-tree whose root node is not in memory: any byte offset below 2^40 gives a value/instructions/error, never an overflow", "bytes < 2^40", "3-block literal tree, root 4 flushed", timeout=600),
